@@ -100,6 +100,31 @@ func TestC20Registry(t *testing.T) {
 		if c, ok := r.Get("pfx.d.dropped").(gometrics.Counter); !ok || c.Count() != 2 {
 			rep.Violate("gometrics:count-forwarding", "count samples not forwarded to a counter named <prefix>.<id>", nil)
 		}
+		// a second adapter over the same backend and prefix (an adapter re-created after Stop, two components sharing one registry),
+		// and a metric the application registered itself: samples still reach the backend metric of that name
+		mr2, err := gmreg.NewGoMetricsMetricRegistry(r, "", "pfx", time.Second)
+		if err != nil {
+			t.Fatal(err)
+		}
+		mr2.RegisterDistribution("d.inflight").AddSample(9)
+		mr2.RegisterTiming("d.rtt").AddSample(5)
+		mr2.RegisterCount("d.dropped").AddSample(1)
+		gometrics.GetOrRegisterCounter("pfx.app.dropped", r).Inc(10)
+		mr2.RegisterCount("app.dropped").AddSample(1)
+		rep.Evaluations += 4
+		rep.Distinct("forwarding", "gometrics-shared-backend")
+		if h, ok := r.Get("pfx.d.inflight").(gometrics.Histogram); !ok || h.Count() != 2 || h.Max() != 9 {
+			rep.Violate("gometrics:distribution-forwarding:shared-backend", "second adapter over the same backend: its distribution sample did not reach the histogram named <prefix>.<id>", nil)
+		}
+		if tm, ok := r.Get("pfx.d.rtt").(gometrics.Timer); !ok || tm.Count() != 2 {
+			rep.Violate("gometrics:timing-forwarding:shared-backend", "second adapter over the same backend: its timing sample did not reach the timer named <prefix>.<id>", nil)
+		}
+		if c, ok := r.Get("pfx.d.dropped").(gometrics.Counter); !ok || c.Count() != 3 {
+			rep.Violate("gometrics:count-forwarding:shared-backend", "second adapter over the same backend: its count sample did not reach the counter named <prefix>.<id>", nil)
+		}
+		if c, ok := r.Get("pfx.app.dropped").(gometrics.Counter); !ok || c.Count() != 11 {
+			rep.Violate("gometrics:count-forwarding:shared-backend", "a counter of that name already existed in the backend: the count sample did not reach it", nil)
+		}
 	}
 	// (b) life cycle on a virtual clock, compared with the registry model (component 60)
 	n := Scale(60, 1000)
